@@ -424,9 +424,27 @@ def NeverCounts (S : Scheme) (nowSec : Int) (bad : Metadata) : Prop :=
   ∀ vkey, bad.verifySignature S nowSec vkey = .bad ∨ bad.verifySignature S nowSec vkey = .expired ∨
     ∃ e, bad.verifySignature S nowSec vkey = .crash e ∧ (e = .format ∨ e = .keyError ∨ e = .value)
 
+/-- The threshold stage skips this metadata when it is presented for step
+`stepName`: its signature check does not succeed, or it does but the payload is a
+link recorded for another step. -/
+def SkippedFor (S : Scheme) (nowSec : Int) (bad : Metadata) (stepName : Str) : Prop :=
+  ∀ vkey, bad.verifySignature S nowSec vkey = .bad ∨ bad.verifySignature S nowSec vkey = .expired ∨
+    (∃ e, bad.verifySignature S nowSec vkey = .crash e ∧ (e = .format ∨ e = .keyError ∨ e = .value)) ∨
+    (bad.verifySignature S nowSec vkey = .ok ∧
+      ∃ payload, bad.getPayload = .ok payload ∧ nameBound payload stepName = false)
+
+theorem NeverCounts.skippedFor {S : Scheme} {nowSec : Int} {bad : Metadata} (h : NeverCounts S nowSec bad)
+    (stepName : Str) : SkippedFor S nowSec bad stepName := by
+  intro vkey
+  rcases h vkey with h | h | h
+  · exact .inl h
+  · exact .inr (.inl h)
+  · exact .inr (.inr (.inl h))
+
 theorem verifyStepLinks_ext (w' : World) (hS : w'.S = w.S) (hN : w'.nowSec = w.nowSec)
-    (hbad : NeverCounts w.S w.nowSec bad) (l : Layout) (hk : KeyidsOk l.keys) (step : Step) (stepName : Str)
-    (E : Str → Prop) : ∀ (input' input : List (Str × Metadata)), Ext E bad input' input →
+    (l : Layout) (hk : KeyidsOk l.keys) (step : Step) (stepName : Str)
+    (E : Str → Prop) (hbad : ∀ k, E k → SkippedFor w.S w.nowSec bad stepName) :
+    ∀ (input' input : List (Str × Metadata)), Ext E bad input' input →
     ∀ (kept : Dict Str Metadata) (used : List Str),
     verifyStepLinks w' l (mainKeysForSubkeys l.keys) step stepName input' kept used =
       verifyStepLinks w l (mainKeysForSubkeys l.keys) step stepName input kept used := by
@@ -461,7 +479,7 @@ theorem verifyStepLinks_ext (w' : World) (hS : w'.S = w.S) (hN : w'.nowSec = w.n
             split
             · exact ih _ _
             · exact ih _ _
-  | extra k _ _ ih =>
+  | extra k hEk _ ih =>
     intro kept used
     rw [← ih kept used]
     simp only [verifyStepLinks]
@@ -472,15 +490,18 @@ theorem verifyStepLinks_ext (w' : World) (hS : w'.S = w.S) (hN : w'.nowSec = w.n
     | some vm =>
       obtain ⟨vkey, mainId⟩ := vm
       simp only [hS, hN]
-      rcases hbad vkey with h | h | ⟨e, h, he⟩
+      rcases hbad k hEk vkey with h | h | ⟨e, h, he⟩ | ⟨h, payload, hp, hnb⟩
       · rw [h]
       · rw [h]
       · rw [h]
         simp only [he, if_true]
+      · rw [h]
+        simp only [hp, hnb, Bool.not_false, if_true]
 
 theorem verifySigSteps_ext (w' : World) (hS : w'.S = w.S) (hN : w'.nowSec = w.nowSec)
-    (hbad : NeverCounts w.S w.nowSec bad) (l : Layout) (hk : KeyidsOk l.keys)
-    (R : Str → Str → Prop) (loaded' loaded : Dict Str (Dict Str Metadata))
+    (l : Layout) (hk : KeyidsOk l.keys)
+    (R : Str → Str → Prop) (hbad : ∀ name k, R name k → SkippedFor w.S w.nowSec bad name)
+    (loaded' loaded : Dict Str (Dict Str Metadata))
     (hext : ExtK (fun name => Ext (R name) bad) loaded' loaded) :
     ∀ (steps : List Step) (acc : Dict Str (Dict Str Metadata)),
     verifySigSteps w' l (mainKeysForSubkeys l.keys) loaded' steps acc =
@@ -499,9 +520,9 @@ theorem verifySigSteps_ext (w' : World) (hS : w'.S = w.S) (hN : w'.nowSec = w.no
           verifyStepLinks w l (mainKeysForSubkeys l.keys) step name ((Dict.get? loaded name).getD []) [] [] := by
         rcases hext.get? name with ⟨h1, h2⟩ | ⟨a, b, h1, h2, hr⟩
         · rw [h1, h2]
-          exact verifyStepLinks_ext w bad w' hS hN hbad l hk step name (R name) _ _ .nil _ _
+          exact verifyStepLinks_ext w bad w' hS hN l hk step name (R name) (hbad name) _ _ .nil _ _
         · rw [h1, h2]
-          exact verifyStepLinks_ext w bad w' hS hN hbad l hk step name (R name) _ _ hr _ _
+          exact verifyStepLinks_ext w bad w' hS hN l hk step name (R name) (hbad name) _ _ hr _ _
       rw [this]
       cases verifyStepLinks w l (mainKeysForSubkeys l.keys) step name ((Dict.get? loaded name).getD []) [] [] with
       | error e => rfl
@@ -638,8 +659,9 @@ carrying a signature of the other key family. Putting it into a new file
 anywhere — the link directory, the directory of a sublayout at any depth, under
 the file name of an authorised functionary's link — leaves a successful
 verification exactly as it was: same summary link, same inspections run. -/
-theorem C02_bad_file_never_rejects (hnew : P ∉ w.files.map (·.1))
-    (hload : Metadata.fromDict data aux = .ok bad) (hbad : NeverCounts w.S w.nowSec bad) :
+theorem extra_file_never_rejects (hnew : P ∉ w.files.map (·.1))
+    (hload : Metadata.fromDict data aux = .ok bad)
+    (hbad : ∀ dir name k, pathJoin dir (linkFileName name k) = P → SkippedFor w.S w.nowSec bad name) :
     ∀ (fuel : Nat) (md : Metadata) (keys : List (Str × JVal)) (dir : Str)
       (params : Option (List (Str × Option Str))) (stepName : Str) (s : Link), md.KeysChecked →
       (verify gm w fuel md keys dir params stepName).result = .ok s →
@@ -668,7 +690,7 @@ theorem C02_bad_file_never_rejects (hnew : P ∉ w.files.map (·.1))
     -- the signature stage retains the same
     have hsig' : verifyLinkSignatureThresholds (w.addFile P (some (data, aux))) st.layout loaded' = .ok st.stepsMd := by
       unfold verifyLinkSignatureThresholds
-      rw [verifySigSteps_ext w bad (w.addFile P (some (data, aux))) rfl rfl hbad st.layout hk _ loaded' st.loaded hx]
+      rw [verifySigSteps_ext w bad (w.addFile P (some (data, aux))) rfl rfl st.layout hk _ (hbad dir) loaded' st.loaded hx]
       exact st.hsig
     -- sublayouts: by induction, for metadata loaded from files
     have hfiles := retained_from_files w st.hload st.hsig
@@ -687,6 +709,17 @@ theorem C02_bad_file_never_rejects (hnew : P ∉ w.files.map (·.1))
     unfold verify
     simp only [hgate', st.hgate, hload'', st.hload, hsig', st.hsig, hsub', hsub, st.hchain, hinsp', st.hinsp,
       st.hirules]
+
+/-- `extra_file_never_rejects` for metadata whose signature check never succeeds. -/
+theorem C02_bad_file_never_rejects (hnew : P ∉ w.files.map (·.1))
+    (hload : Metadata.fromDict data aux = .ok bad) (hbad : NeverCounts w.S w.nowSec bad)
+    (fuel : Nat) (md : Metadata) (keys : List (Str × JVal)) (dir : Str)
+    (params : Option (List (Str × Option Str))) (stepName : Str) (s : Link) (hkc : md.KeysChecked)
+    (h : (verify gm w fuel md keys dir params stepName).result = .ok s) :
+    verify gm (w.addFile P (some (data, aux))) fuel md keys dir params stepName =
+      verify gm w fuel md keys dir params stepName :=
+  extra_file_never_rejects gm w P data aux bad hnew hload (fun _ name _ _ => hbad.skippedFor name)
+    fuel md keys dir params stepName s hkc h
 
 /-! ## The hypothesis is met: unsigned metadata never counts -/
 
